@@ -112,6 +112,7 @@ def accept(req, got):
 def check_sinks(ctx, col, rule, only=None, exclude=()):
     repo = ctx.repo
     geo = Geo(ctx, {**SINKS, **ASSUMED})
+    geo.arg_types = {**PARAM_TYPES, "d": S(1)}
     # constructor-established fields
     geo.fields["swcgeom.analysis.features.NodeFeatures"] = {"self.tree": Obj("Tree")}
     geo.fields["swcgeom.analysis.features.PathFeatures"] = {"self.tree": Obj("Tree")}
